@@ -172,6 +172,25 @@ skip = hop
 halt = sts.b.to(sts.d, cond="g1") | sts.d.from_.any()
 quit = sts.d.from_.any(unless="g2")
 ''',
+    "states-dict-event-kw": '''
+sts = States({"a": State(initial=True), "b": State(), "c": State(), "d": State(final=True)})
+sts.a.to(sts.b, cond="g1", event="go"); sts.a.to(sts.c, event="go"); sts.b.to(sts.c, event="go")
+sts.b.to(sts.a, event="back"); sts.c.to(sts.a, unless="g2", event="back")
+sts.b.to.itself(event="loop")
+sts.c.to(sts.b, unless="g2", event="hop skip")
+sts.b.to(sts.d, cond="g1", event="halt"); sts.a.to(sts.d, event="halt"); sts.b.to(sts.d, event="halt"); sts.c.to(sts.d, event="halt")
+sts.a.to(sts.d, unless="g2", event="quit"); sts.b.to(sts.d, unless="g2", event="quit"); sts.c.to(sts.d, unless="g2", event="quit")
+''',
+    "two-any-parts": '''
+a = State(initial=True); b = State(); c = State(); d = State(final=True)
+go = a.to(b, cond="g1") | a.to(c) | b.to(c)
+back = b.to(a) | c.to(a, unless="g2")
+loop = b.to(b)
+hop = c.to(b, unless="g2")
+skip = hop
+halt = d.from_.any(cond="g1") | d.from_.any()
+quit = d.from_.any(unless="g2")
+''',
     "states-enum": '''
 sts = States.from_enum(Letters, initial=Letters.a, final=Letters.d)
 go = sts.a.to(sts.b, cond="g1") | sts.a.to(sts.c) | sts.b.to(sts.c)
@@ -257,6 +276,11 @@ loop = Base.b.to.itself()
 hop = Base.c.to(Base.b, unless="g2")
 skip = hop
 '''
+# the subclass names its transitions (on inherited states) only through the event= keyword
+INHERIT_SUB_KW = '''
+Base.b.to.itself(event="loop")
+Base.c.to(Base.b, unless="g2", event=["hop", "skip"])
+'''
 
 
 class Letters(enum.IntEnum):
@@ -279,10 +303,10 @@ def build(style):
     from statemachine.states import States
 
     ns = {"State": State, "StateMachine": StateMachine, "States": States, "Event": Event, "Letters": Letters}
-    if style == "inheritance":
+    if style in ("inheritance", "inheritance-event-kw"):
         body = "\n".join("    " + ln for ln in (INHERIT_BASE + COMMON + TRACE).strip().splitlines())
         exec(f"class Base(StateMachine):\n{body}\n", ns)  # noqa: S102 - our own source
-        sub = "\n".join("    " + ln for ln in INHERIT_SUB.strip().splitlines())
+        sub = "\n".join("    " + ln for ln in (INHERIT_SUB if style == "inheritance" else INHERIT_SUB_KW).strip().splitlines())
         exec(f"class M(Base):\n{sub}\n", ns)  # noqa: S102
     else:
         common = "" if style == "guard-decorators" else COMMON
@@ -295,7 +319,7 @@ def build(style):
     return cls
 
 
-STYLES = [s for s in RENDERINGS if s != "reference"] + ["inheritance"]
+STYLES = [s for s in RENDERINGS if s != "reference"] + ["inheritance", "inheritance-event-kw"]
 
 
 def tasks(tier):
@@ -313,7 +337,7 @@ BUDGET = {
 }
 BOUNDS = {
     "quick": "one abstract machine (4 states incl. a final one; 6 events; two candidates for (a,go) and (b,halt), cond and unless guards, a self transition, one "
-    "transition bound to two events, `halt` from every non-final state next to an explicit guarded transition to the same target) rendered in 18 styles (an any() event above a States({...}) collection; the enum's final member has value 0; States.from_enum with and without use_enum_instance; an any() event declared above a state it must cover; one event id attached in two styles inside one class body; on_transition / on_exit_state traces compared as well; (guards also attached with @transition.cond / @event.unless decorators; the enum has an alias; a from_.any(unless=...) event): a.to(b), "
+    "transition bound to two events, `halt` from every non-final state next to an explicit guarded transition to the same target) rendered in 21 styles (a States({...}) collection whose transitions are named only through event=; a subclass naming transitions on inherited states only through event=; one event made of two from_.any() parts; an any() event above a States({...}) collection; the enum's final member has value 0; States.from_enum with and without use_enum_instance; an any() event declared above a state it must cover; one event id attached in two styles inside one class body; on_transition / on_exit_state traces compared as well; (guards also attached with @transition.cond / @event.unless decorators; the enum has an alias; a from_.any(unless=...) event): a.to(b), "
     "b.from_(a), multi-source from_(a,b,c) + to.itself(), from_.any(), event='id' / 'id id' / [ids] on the transition, id-less Event() objects passed by reference "
     "(single and in a list), Event(transitions, name=/id=), decorator-declared events, both associations of | and |=, States({...}), States.from_enum, base class + "
     "subclass; each compared with the reference rendering on states, events, allowed_events in every state, and one step from every state on every event and an "
